@@ -12,7 +12,9 @@ ASSUME = ["one event-time tumbling batch with 3-4 groups closed by a flush row; 
 FNS = ["sum", "avg", "min", "max", "count"]
 
 
-def aggref(fn, c):
+def aggref(fn, c, absf=False):
+    if absf:        # the aggregate's argument is abs(column): evaluated per row before aggregation
+        return {"t": "col", "c": "%s_abs_%s" % (fn, c), "_fn": fn, "_arg": "abs(%s)" % c, "_col": c, "_abs": 1}
     return {"t": "col", "c": "%s_%s" % (fn, c), "_fn": fn, "_arg": c}
 
 
@@ -49,7 +51,7 @@ def strip(e):
 def collect(e, acc):
     if isinstance(e, dict):
         if "_fn" in e:
-            acc[e["c"]] = {"key": e["c"], "fn": "count" if e["_fn"] == "count" else e["_fn"], "arg": e["_arg"]}
+            acc[e["c"]] = {"key": e["c"], "fn": "count" if e["_fn"] == "count" else e["_fn"], "arg": e.get("_col", e["_arg"]), "abs": e.get("_abs", 0)}
         for v in e.values():
             collect(v, acc)
     elif isinstance(e, list):
@@ -67,8 +69,15 @@ def item(rng, shape):
     b = aggref(rng.choice(FNS), rng.choice(["v", "w"]))
     if shape == 3: return {"t": "bin", "op": rng.choice(["+", "-", "*"]), "a": a, "b": b}
     if shape == 4: return {"t": "bin", "op": rng.choice(["*", "/", "+"]), "a": par({"t": "bin", "op": rng.choice(["+", "-"]), "a": a, "b": b}), "b": num(rng.choice([2, 4]))}
+    if shape == 8:     # two aggregates over DIFFERENT expression arguments in one item: each aggregates its own expression
+        f1, f2 = rng.choice(["sum", "max", "min", "avg"]), rng.choice(["sum", "max", "min"])
+        return {"t": "bin", "op": rng.choice(["+", "-", "*"]), "a": aggref(f1, "v", True), "b": aggref(f2, "w", True)}
     if shape == 6: return {"t": "bin", "op": "+", "a": num(1), "b": {"t": "bin", "op": "*", "a": num(2), "b": a}}      # 1 + 2*agg(x)
     return {"t": "bin", "op": "+", "a": {"t": "bin", "op": "*", "a": a, "b": num(2)}, "b": num(1)}      # agg(x)*2+1
+
+
+def absv(x, d):
+    return abs(x) if (d.get("abs") and x is not None) else x
 
 
 def pyagg(fn, vals):
@@ -109,14 +118,14 @@ def mk(rng, nsel, having_kind, norder, limit, distinct, tie_first=False):
     rows, rid = [], 0
     for _ in range(rng.choice([7, 9, 11])):
         rid += 1
-        rows.append({"id": rid, "ts": 1000 + rid, "g": rng.choice(groups), "v": rng.choice([1, 2, 3, 5, 8, 13, None]), "w": rng.choice([0, 1, 4, 6, 9])})
+        rows.append({"id": rid, "ts": 1000 + rid, "g": rng.choice(groups), "v": rng.choice([1, 2, 3, 5, 8, 13, None, -4]), "w": rng.choice([0, 1, 4, 6, 9, -2])})
     n = len(rows)
     rows.append({"id": n + 1, "ts": 40000, "g": "zz", "v": 1, "w": 1})
     gsel = 0 if (distinct and rng.random() < 0.6) else 1
     sel = []
     for k in range(nsel):
         # shapes 1 and 5 (an item that STARTS with one aggregate call followed by arithmetic, e.g. avg(v) + 3) are a pinned finding (AggThenArithmeticPerRow)
-        sel.append({"al": "c%d" % k, "e": item(rng, rng.choice([0, 2, 3, 4, 0, 2, 3, 4, 6]))})
+        sel.append({"al": "c%d" % k, "e": item(rng, rng.choice([0, 2, 3, 4, 0, 2, 3, 4, 6, 8]))})
     if distinct and not gsel and rng.random() < 0.5:
         # un-aliased plain aggregates (reported under their text, e.g. max(v)): DISTINCT still sees every delivered column
         sel = [{"al": "%s(%s)" % (f, c), "e": aggref(f, c), "unaliased": 1} for f, c in rng.sample([(f, c) for f in FNS for c in ("v", "w")], nsel)]
@@ -142,7 +151,7 @@ def mk(rng, nsel, having_kind, norder, limit, distinct, tie_first=False):
     if order:
         keyvals = []
         for g in set(r["g"] for r in rows[:n]):
-            env = {k: pyagg(d["fn"], [r.get(d["arg"]) for r in rows[:n] if r["g"] == g]) for k, d in defs.items()}
+            env = {k: pyagg(d["fn"], [absv(r.get(d["arg"]), d) for r in rows[:n] if r["g"] == g]) for k, d in defs.items()}
             keyvals.append(tuple(pyeval(strip(ItemE(sel, o["al"])), env) for o in order))
         # the order must be total on the batch: key tuples pairwise different (ties on the FIRST key are welcome when a second key breaks them)
         if any(v is None for kv in keyvals for v in kv) or len(set(keyvals)) != len(keyvals):
@@ -153,7 +162,7 @@ def mk(rng, nsel, having_kind, norder, limit, distinct, tie_first=False):
             o["bare"] = 1 if (o["desc"] == 0 and rng.random() < 0.5) else 0      # ASC is the default: a key may be written without a direction
     # a '+' with a NULL aggregate operand (all inputs of the group NULL) is the pinned finding AggNullPlusIsString: screen it out
     for g in set(r["g"] for r in rows[:n]):
-        env = {k: pyagg(d["fn"], [r.get(d["arg"]) for r in rows[:n] if r["g"] == g]) for k, d in defs.items()}
+        env = {k: pyagg(d["fn"], [absv(r.get(d["arg"]), d) for r in rows[:n] if r["g"] == g]) for k, d in defs.items()}
         if any(null_plus(strip(it["e"]), env) for it in sel) or (having is not None and null_plus(strip(having), env)):
             return None
     txt = "SELECT " + ("DISTINCT " if distinct else "") + ("g, " if gsel else "") + ", ".join(agg_sql(it["e"]) if it.get("unaliased") else "%s AS %s" % (agg_sql(it["e"]), it["al"]) for it in sel)
@@ -168,7 +177,10 @@ def mk(rng, nsel, having_kind, norder, limit, distinct, tie_first=False):
     meta = {"fam": "postagg", "n": n, "aggdefs": list(defs.values()), "sel": strip(sel), "gsel": gsel, "order": order, "limit": limit, "distinct": 1 if distinct else 0}
     if having is not None:
         meta["having"] = strip(having)
-    return {"meta": meta, "sql": txt, "rows": rows}
+    sc = {"meta": meta, "sql": txt, "rows": rows}
+    if any(it.get("unaliased") for it in sel):
+        sc["nofnupper"] = True        # an un-aliased item is reported under its text: the spelling of the function name is the column name
+    return sc
 
 
 def join_variant(sc, rng):
